@@ -245,6 +245,7 @@ pub fn feature_modules() -> Vec<(&'static str, String)> {
         m("param", "P {T} ::= SEQUENCE { v T } A ::= P {INTEGER} Q {INTEGER:n} ::= INTEGER (0..n) B ::= Q {7}"),
         m("selection", "C ::= CHOICE { a INTEGER, b BOOLEAN } A ::= a < C"),
         m("class", "OP ::= CLASS { &id INTEGER UNIQUE, &Type } WITH SYNTAX { ID &id TYPE &Type } op1 OP ::= { ID 1 TYPE BOOLEAN } Ops OP ::= { op1 } A ::= SEQUENCE { id OP.&id ({Ops}), val OP.&Type ({Ops}{@id}) } F ::= OP.&id"),
+        m("class-hyphenated-field", "MY-CLASS ::= CLASS { &id INTEGER UNIQUE, &My-Type } WITH SYNTAX { &My-Type IDENTIFIED BY &id } Set-x MY-CLASS ::= { { BOOLEAN IDENTIFIED BY 1 } | { INTEGER IDENTIFIED BY 2 } } Tt ::= SEQUENCE { id MY-CLASS.&id ({Set-x}), val MY-CLASS.&My-Type ({Set-x}{@id}) }"),
         m("with-components", "A ::= SEQUENCE { a INTEGER OPTIONAL, b BOOLEAN OPTIONAL } B ::= A (WITH COMPONENTS { a PRESENT, b ABSENT }) L ::= SEQUENCE OF INTEGER M2 ::= L (WITH COMPONENT (0..5))"),
         m("containing", "A ::= OCTET STRING (CONTAINING INTEGER) B ::= BIT STRING (CONTAINING BOOLEAN)"),
         m("pattern", "A ::= UTF8String (PATTERN \"[a-z]+\")"),
